@@ -337,3 +337,21 @@ Definition e2e_snapshot (w : world) (k : key) : nat * nat * option bytes :=
   (match m_get k (w_ipoe w) with Some _ => 1 | None => 0 end,
    count_pp k (w_pp_all w),
    match reg_get (w_reg w) k with Some o => Some (o_proto o) | None => None end).
+
+(* ---- restart: everything in memory is gone except what the components restore from their
+   checkpoints; the registry starts empty and every restored live session claims its tuple again
+   (ipoe: restoreSessions -> setupSession(Restore) -> claimTuple; pppoe: restoreSessions ->
+   installInMemoryState -> addToIndexes) ---- *)
+Definition reclaim_ipoe (r : registry) (e : key * owner) : registry :=
+  fst (component_claim proto_ipoe r (fst e) (o_sid (snd e))).
+Definition reclaim_pppoe (r : registry) (e : key * bytes) : registry :=
+  fst (component_claim_any proto_pppoe r (fst e) (snd e)).
+Definition e2e_restart (w : world) : world :=
+  mkW (fold_left reclaim_pppoe (w_pp_all w) (fold_left reclaim_ipoe (w_ipoe w) new_registry))
+      (w_ipoe w) (w_pp_key w) (w_pp_all w) (w_next w).
+(* the recorded defect of the ipoe restore path: sessions of the tuples in [skip] (half-established when
+   checkpointed, or whose dataplane restore failed) are put back into the session tables without a claim *)
+Definition e2e_restart_skipping (skip : list key) (w : world) : world :=
+  mkW (fold_left reclaim_pppoe (w_pp_all w)
+         (fold_left reclaim_ipoe (filter (fun e => negb (existsb (key_eqb (fst e)) skip)) (w_ipoe w)) new_registry))
+      (w_ipoe w) (w_pp_key w) (w_pp_all w) (w_next w).
